@@ -118,15 +118,17 @@ def check_C12(report, tier, seed, replay=None):
         prev = "-"
         for i, st in enumerate(steps):
             desc = {"property": "C12", "ops": [list(map(str, o)) for o in seq[:i + 1]]}
+            # the property's own oracle (reference list) is evaluated on the implementation whether or not the model agrees
+            complaint = c12_oracle(st, prev)
+            if complaint:
+                report.violation("after %r: %s" % ([tuple(o) for o in seq[:i + 1]], complaint), desc)
             if st["impl_ret"] != st["model_ret"] or st["impl_state"] != st["model_state"] or \
                     any(o[0] != o[2] or o[1] != o[3] for o in st["obs"].values()):
                 report.broke("correspondence C12 (FiltersSet model vs implementation)",
                              "after %r: impl %s %s model %s %s obs %r" % (seq[:i + 1], st["impl_ret"], st["impl_state"],
                                                                          st["model_ret"], st["model_state"], st["obs"]), desc)
                 break
-            complaint = c12_oracle(st, prev)
             if complaint:
-                report.violation("after %r: %s" % ([tuple(o) for o in seq[:i + 1]], complaint), desc)
                 break
             prev = st["spec_state"]
     drv.close()
@@ -140,7 +142,7 @@ C06_VALUES = ["a", "INBOX.x", 'q"uote', "back\\slash", "end\\", "a,b", "[x]", "]
               '") { discard; } #', "\\\"", "a\rb", "${v}", "", "#c", "/*c*/", "x;y", "text:", "{", "}", "\t", "a'b",
               'a"', "é\\\"", ",", ";"]
 C19_VALUES = ["a", "toto@toto.com", "two words", "[x]", "x]y[", "café", "日本", "a b c", "list-help", "+0100", "2019-02-26",
-              "x;y", "(p)", "{b}", "a'b", "é è"]
+              "x;y", "(p)", "{b}", "a'b", "é è", " free ", "winner ", " x"]
 COMMA_VALUES = ["a,b", ",", "x, y"]
 
 
